@@ -255,6 +255,10 @@ func genTimeSpec(t *rapid.T, label string, o *ValOpts) *TimeSpec {
 		ts.Sec = rapid.Int64Range(0, 2000000000).Draw(t, label+".sec")
 	case 1:
 		ts.Sec = rapid.Int64Range(-62135596800+86400*366, 253402300799-86400*366).Draw(t, label+".wide") // years 2..9998
+		if rapid.IntRange(0, 3).Draw(t, label+".ancient") == 0 {
+			// years -300..2 in Go's astronomical numbering: year 1, year 0 (= 1 BC) and before
+			ts.Sec = rapid.Int64Range(-71600000000, -62135596800+86400*800).Draw(t, label+".bc")
+		}
 	default:
 		ts.Sec = rapid.Int64Range(1500000000, 1800000000).Draw(t, label+".near")
 	}
@@ -271,6 +275,11 @@ func genTimeSpec(t *rapid.T, label string, o *ValOpts) *TimeSpec {
 		ts.Loc = "fixed"
 		ts.Name = rapid.SampledFrom([]string{"", "CET", "X"}).Draw(t, label+".fname")
 		ts.Off = rapid.IntRange(-14*60, 14*60).Draw(t, label+".foff") * 60
+	}
+	// Go's year 0 (1 BC) has no counterpart in the format (there is no year 0, and negative years are taken
+	// over as they are): such a time is refused when marshaling, so it is outside every round-trip domain
+	if ts.Time().Year() == 0 {
+		ts.Sec += 2 * 366 * 86400
 	}
 	return ts
 }
